@@ -48,6 +48,31 @@ CLAIMS = {
              note="Trusted: TLC, the harness codec (reference segmenter/reassembler). Bounded stream length in the design check (6 quick / 8 thorough); payload sizes scaled to the 249-byte minimum buffer in replay."),
 }
 
+MST_NOTE = ("Trusted: TLC; the TLA+ modules (Master.tla, MasterEv.tla, Mon_%s.tla, MMonBase.tla); the harness codec (independent of dnp3), the scenario "
+            "concretiser's classification of replies (faithful echo / mismatching echo / data / malformed) and tokio's paused clock. Bounded constants in the "
+            "design check (1-2 associations, <=2-3 user requests, depth 6 quick / 8 thorough); conformance and monitor verdicts hold for the executed scenarios only. "
+            "Time-synchronisation and file-transfer tasks are not in Master.tla.")
+MST_TECH = "TLA+ model checking (TLC) + trace validation of replayed behaviours"
+CLAIMS.update({
+ "C15": dict(text="Master.tla is the master session as written (scheduler, task loop, response validation, unsolicited handling); TLC offers at every step every kind of fragment (right / wrong sequence, "
+                  "foreign source, every FIR/FIN/CON shape, IIN2 rejection, malformed objects, unparsable header, unsolicited with repeats) for every kind of outstanding task and with none, with Mon_C15 in "
+                  "lock-step: it decides from the wire alone whether a fragment answers the outstanding request and compares with handler deliveries, completions and confirms. TLC-generated behaviours "
+                  "(abstract-transition cover + simulation) are replayed on the production master over an in-memory pipe; every trace is judged by Mon_C15 and validated line by line against Master.tla.",
+             ref="§7 C15", technique=MST_TECH, note=MST_NOTE % "C15"),
+ "C16": dict(text="Mon_C16 follows user requests, their completions, the request on the wire and the class of every reply (faithful echo only when byte-identical with status SUCCESS): success only on the "
+                  "faithful final reply, OPERATE only after a faithful SELECT echo with next sequence and same objects, corresponding errors, exactly one outcome, at once when not queueable, on the line of a "
+                  "disconnect / disable, and within the response timeouts of the steps ahead. Lock-step with Master.tla in TLC; replayed behaviours validated by TLC.",
+             ref="§7 C16", technique=MST_TECH, note=MST_NOTE % "C16"),
+ "C17": dict(text="Mon_C17 keeps the open start-up obligations per association (clear restart < disable unsolicited < integrity < enable unsolicited), re-armed by the restart indication of any processed "
+                  "response, and checks task order, polls only after all obligations, gating of unsolicited data, confirmation of empty unsolicited responses and the back-off schedule of failed automatic tasks; "
+                  "TLC explores responses good / rejected / malformed / absent with every indication, unsolicited traffic, reconnects and timer expiries on Master.tla; replayed behaviours validated by TLC.",
+             ref="§7 C17", technique=MST_TECH, note=MST_NOTE % "C17"),
+ "C19": dict(text="Mon_C19 keeps the accepted user requests, the earliest next run of every poll, link activity per association and the outstanding request; TLC explores two associations with polls of different "
+                  "periods, demands, user requests, link status checks, keep-alive, late / absent responses and reconnects on Master.tla (fifo, requests before polls, poll cadence and non-starvation, turns, "
+                  "keep-alive only after silence, one outstanding request, no spinning = the harness watchdog); replayed behaviours validated by TLC.",
+             ref="§7 C19", technique=MST_TECH, note=MST_NOTE % "C19"),
+})
+
 def main():
     head = subprocess.run(["git", "-C", "/repo", "log", "--format=%h %s"], capture_output=True, text=True).stdout.splitlines()
     hooks = [l.split()[0] for l in head if "verif hooks" in l]
@@ -69,7 +94,7 @@ def main():
         })
     na = [{"property_id": p, "reason": NA.get(p, "check not built yet (work in progress)")} for p in PROPS if p not in CLAIMS]
     m = {"version": 1,
-         "setup_cmd": "cd /verif/harness && cargo build --offline 2>&1 | tail -2 && cd /verif/spec && for f in Trace_Outstation.tla TM_C03.tla TM_C04.tla TM_C06.tla TM_C07L.tla TM_C08.tla Trace_Link.tla TM_C05.tla TM_C07.tla TM_C11.tla TM_C12.tla TM_C13.tla TM_C14.tla; do tla-sany $f > /dev/null || exit 1; done",
+         "setup_cmd": "cd /verif/harness && cargo build --offline 2>&1 | tail -2 && cd /verif/spec && for f in Trace_Outstation.tla TM_C03.tla TM_C04.tla TM_C06.tla TM_C07L.tla TM_C08.tla Trace_Link.tla TM_C05.tla TM_C07.tla TM_C11.tla TM_C12.tla TM_C13.tla TM_C14.tla Trace_Master.tla TM_C15.tla TM_C16.tla TM_C17.tla TM_C19.tla; do tla-sany $f > /dev/null || exit 1; done",
          "hooks": {"guard": "dnp3_verif",
                    "enable": "rustflags --cfg dnp3_verif in /verif/harness/.cargo/config.toml (the harness crate has a path dependency on /repo/dnp3, default-features off)",
                    "baseline_off_cmd": "cd /repo && cargo test --workspace --no-fail-fast --offline",
